@@ -21,6 +21,7 @@ import QV.Proofs.WriterSession
 import QV.Proofs.WriterBridge
 import QV.Proofs.WriterRefine
 import QV.Proofs.WriterHeader
+import QV.Proofs.WriterShapeRun
 
 namespace QV.C12
 open QV QV.Writer QV.ServerSafety
@@ -43,12 +44,15 @@ open QV QV.Writer QV.ServerSafety
   `finish` succeeds under the hint contract, and (d) the decoding half **in `Disabled`
   compression mode** (`C12_disabled_refinement`: the independent decoder `specDecodeMsg` reads the
   finished octets as exactly the questions, records, OPT and TSIG record of the calls that
-  succeeded). Not proved: (d) for `Standard` / `CasePreserving` mode, where names may be
-  compressed — the byte-level facts it needs are proved (`QV.Writer.NameSpec`: every written name
-  is stored, and denotes the name given, exactly where the model says; C13: every pointer is
-  valid), but the round trip of *compressed* names through `specDecodeMsg` is only checked by the
-  oracle (model column of `waudit`, 100 % of generated sessions). The header half of (d) is
-  proved for every mode (`C12_header_all_sequences`). -/
+  succeeded). For `Standard` / `CasePreserving` mode, where names may be compressed, (d) is proved in
+  two parts: the structure of the finished message for all sequences of calls
+  (`C12_finished_message_decodes_all_modes`: it decodes completely, with exactly the counted
+  questions and records, OPT and TSIG last) and the content record by record
+  (`C12_record_round_trip_all_modes`: owner up to ASCII case / exactly, TYPE, CLASS, TTL, RDLENGTH;
+  C13 has the round trip of every single written name). Not proved: the read-back of names inside
+  RDATA within a whole message and the assembly into one statement about the abstract message —
+  that remains with the oracle (model column of `waudit`, 100 % of generated sessions). The header
+  half of (d) is proved for every mode (`C12_header_all_sequences`). -/
 
 def C12_full : Prop :=
   ∀ (buf : Bytes) (limit : Nat) (mode : CMode) (s : State) (ops : List Op) (mac : Option (List UInt8)),
@@ -231,5 +235,63 @@ theorem C12_accepted_rdata_is_wellformed (sec : RrSection) (hint : Hint) (owner 
 theorem C12_component_table_is_rfc_layout (cls ty : Nat) :
     componentTypes cls ty = some ((Spec.Message.layoutOf ty cls).map layToComp) :=
   componentTypes_layout cls ty
+
+/-! ## (d) in every compression mode: structure, and the round trip of each record
+
+  For `Standard` and `CasePreserving` mode the refinement is proved in two parts.
+  * **Structure, for all sequences of calls** (`C12_finished_message_decodes_all_modes`): the
+    finished message — if at most 65535 octets, as every DNS message is — decodes completely under
+    the independent message decoder of `QV.Spec.MsgDecode`: exactly QDCOUNT questions and
+    ANCOUNT / NSCOUNT / ARCOUNT records (the counts the writer kept: failed calls left no trace),
+    the message ending after the last record; the additional section ends with the OPT record iff
+    EDNS is set, then the TSIG record iff a TSIG is set. (Invariant `SLay`: every question and
+    record starts with a name that decoder reads — C13 — on exactly the octets the writer wrote,
+    and every RDLENGTH leads to the next record.)
+  * **Content, record by record** (`C12_record_round_trip_all_modes`): what one successful `add_rr`
+    appended reads back, on every later message, as the owner given (same labels up to ASCII case;
+    octet for octet in `CasePreserving` and `Disabled` mode), TYPE, CLASS, TTL as given, and an
+    RDLENGTH that is the number of octets written after it.
+  Not proved for these two modes: that the names *inside RDATA* read back (C13 proves each of them
+  is written validly and `C13_written_name_round_trip` that each reads back on its own), and the
+  assembly of the two parts into one statement about the abstract message. -/
+
+theorem C12_finished_message_decodes_all_modes (macFn : Tsig → List UInt8 → List UInt8) (hmac : MacLenOK macFn)
+    (buf : Bytes) (limit : Nat) (s0 : State) (hnew : Writer.new buf limit = .ok s0) (mode : CMode)
+    (ops : List Op) (hr : Respects { w := { s0 with mode := mode } } ops) :
+    let fin := (run { w := { s0 with mode := mode } } ops).1.w
+    ∃ m mac, finish fin macFn = .ok (m, mac) ∧ (m.size ≤ 65535 →
+      ∃ d, Spec.specDecodeMsg m = some d ∧ d.questions.length = fin.qdcount ∧ d.an.length = fin.ancount ∧
+        d.ns.length = fin.nscount ∧ d.ar.length = fin.arcount ∧
+        ∃ body, d.ar.map (·.ty) = body ++ (if fin.edns.isSome then [41] else []) ++
+          (if fin.tsig.isSome then [250] else [])) := by
+  intro fin
+  have hI0 : I { s0 with mode := mode } := (safe_setMode mode s0 (new_i buf limit s0 hnew)).2
+  have hL0 : SLay { s0 with mode := mode } :=
+    slay_setMode mode s0 (slay_new buf limit s0 hnew) (new_i buf limit s0 hnew)
+  have hI := (run_I { w := { s0 with mode := mode } } ops hI0 hr).2
+  have hL := slay_run { w := { s0 with mode := mode } } ops hI0 hL0 hr
+  obtain ⟨m, mac, hf⟩ := finish_ok macFn hmac fin hI
+  exact ⟨m, mac, hf, fun hsz => finish_decodes macFn fin hI hL m mac hf hsz⟩
+
+theorem C12_record_round_trip_all_modes (hint : Hint) (owner : WName) (ty cls ttl : Nat) (rd : List UInt8)
+    (s s' : State) (hw : WInv s) (hwf : owner.WF) (hh : Writer.HintOK s hint owner)
+    (hty : ty < 65536) (hcls : cls < 65536) (httl : ttl < 4294967296)
+    (h : addRr hint owner ty cls ttl rd s = (.ok (), s')) (msg : Bytes)
+    (hmsg : ∀ i, i < s'.cursor → msg[i]? = s'.octets[i]?) :
+    ∃ w k, Spec.specDecodeName msg s.cursor = some (w, owner.len, k) ∧ s.cursor + k + 10 ≤ s'.cursor ∧
+      w.map lowerU8 = owner.wire.map lowerU8 ∧ (s.mode ≠ .standard → w = owner.wire) ∧
+      be16 msg (s.cursor + k) = ty ∧ be16 msg (s.cursor + k + 2) = cls ∧ be32 msg (s.cursor + k + 4) = ttl ∧
+      be16 msg (s.cursor + k + 8) = (s'.cursor - (s.cursor + k + 10)) % 65536 :=
+  addRr_round_trip hint owner ty cls ttl rd s s' hw hwf hh hty hcls httl h msg hmsg
+
+/-- the same for the question (`add_question`): QNAME, then QTYPE and QCLASS -/
+theorem C12_question_round_trip_all_modes (qn : WName) (qt qc : Nat) (s s' : State) (hw : WInv s)
+    (hwf : qn.WF) (hqt : qt < 65536) (hqc : qc < 65536)
+    (h : addQuestionBody qn qt qc s = (.ok (), s')) (msg : Bytes)
+    (hmsg : ∀ i, i < s'.cursor → msg[i]? = s'.octets[i]?) :
+    ∃ w k, Spec.specDecodeName msg s.cursor = some (w, qn.len, k) ∧ s'.cursor = s.cursor + k + 4 ∧
+      w.map lowerU8 = qn.wire.map lowerU8 ∧ (s.mode ≠ .standard → w = qn.wire) ∧
+      be16 msg (s.cursor + k) = qt ∧ be16 msg (s.cursor + k + 2) = qc :=
+  addQuestionBody_round_trip qn qt qc s s' hw hwf hqt hqc h msg hmsg
 
 end QV.C12
